@@ -186,7 +186,7 @@ func (c *FnCtx) whereNow() string {
 		return ""
 	}
 	p := c.eng.prog.Fset.Position(pos)
-	return fmt.Sprintf("%s:%d", strings.TrimPrefix(p.Filename, "/repo/"), p.Line)
+	return fmt.Sprintf("%s:%d", strings.TrimPrefix(p.Filename, repoDir()+"/"), p.Line)
 }
 
 // safety obligation or assumption depending on `checks`.
@@ -860,6 +860,7 @@ func (c *FnCtx) storePtr(fr *Frame, st *State, p ssa.Value, v SV) {
 		}
 		c.derefCheck(st, x.Loc)
 		c.guardCheck(st, x.Loc)
+		c.escapeChan(st, v, et)
 		c.storeLoc(st, x.Loc, v)
 		return
 	case Sc:
@@ -927,6 +928,7 @@ func (c *FnCtx) execInstr(fr *Frame, st *State, instr ssa.Instruction) {
 			// list): a dependency receiving interface values may write through it
 			c.escapedPtrs = append(c.escapedPtrs, escapedPtr{v, t})
 		}
+		c.escapeChan(st, v, t)
 		fr.regs[x] = If{Tag: c.typeTag(t), ID: c.box(v, t), Static: v, StaticT: t}
 	case *ssa.TypeAssert:
 		fr.regs[x] = c.typeAssert(fr, st, x)
